@@ -54,6 +54,8 @@ type ReloadObs struct {
 	Variant    string
 	Start, End time.Time
 	OK, Failed float64 // increase of slogagent_reloads_total{status=success|failure} across the call
+	QueuesWithFiles int // queue directories that held chunk files right after the reload returned
+	Orphans    []string // queue directories that held chunk files right after the reload returned and for which the new pipeline set has no pipeline
 }
 
 type Generation struct {
@@ -262,6 +264,54 @@ func startAgent(confPath string, reloader bool) (*agent, error) {
 	return a, nil
 }
 
+// orphanQueues lists the queue directories that hold chunk files now and then asks the agent's metrics whether a
+// pipeline for that key set exists (its buffer gauges are registered when the pipeline is created). A directory with
+// files and no pipeline cannot be a transient state: nobody but its pipeline removes the files.
+func orphanQueues(bufRoot string, nOut int, keyHost bool, gather func() vh.Metrics) (int, []string) {
+	type q struct{ out, id, dir string }
+	var withFiles []q
+	for i := 0; i < nOut; i++ {
+		oroot := filepath.Join(bufRoot, fmt.Sprintf("out%d", i))
+		entries, _ := os.ReadDir(oroot)
+		for _, e := range entries {
+			if !e.IsDir() {
+				continue
+			}
+			files, _ := os.ReadDir(filepath.Join(oroot, e.Name()))
+			has := false
+			for _, f := range files {
+				if strings.HasSuffix(f.Name(), ".ff") {
+					has = true
+				}
+			}
+			if !has {
+				continue
+			}
+			id, err := os.ReadFile(filepath.Join(oroot, e.Name(), ".id"))
+			if err != nil {
+				continue
+			}
+			withFiles = append(withFiles, q{fmt.Sprintf("out%d", i), string(id), e.Name()})
+		}
+	}
+	if len(withFiles) == 0 {
+		return 0, nil
+	}
+	m := gather()
+	var orphans []string
+	for _, w := range withFiles {
+		keys := strings.Split(w.id, ",")
+		labels := []string{"output=" + w.out, "key_app=" + keys[0]}
+		if keyHost && len(keys) > 1 {
+			labels = append(labels, "key_host="+keys[1])
+		}
+		if !m.Has("slogagent_process_buffer_pending_chunks", labels...) {
+			orphans = append(orphans, w.out+"/"+w.dir)
+		}
+	}
+	return len(withFiles), orphans
+}
+
 // decodeDir reads every chunk file below an output's root directory.
 func decodeDir(root string) (map[string]*vh.ForwardMessage, []string) {
 	out := map[string]*vh.ForwardMessage{}
@@ -396,6 +446,9 @@ func runScenario(sc Scenario) *Outcome {
 					after := vh.Gather(prometheus.DefaultGatherer)
 					ro.OK = after.Sum("slogagent_reloads_total", "status=success") - before.Sum("slogagent_reloads_total", "status=success")
 					ro.Failed = after.Sum("slogagent_reloads_total", "status=failure") - before.Sum("slogagent_reloads_total", "status=failure")
+					if ro.OK > 0 {
+						ro.QueuesWithFiles, ro.Orphans = orphanQueues(filepath.Join(root, "buf"), nOut, sc.KeyHost, ag.gather)
+					}
 					if rs.Variant == "valid" {
 						activeVariant = "valid"
 					} else {
